@@ -81,6 +81,9 @@ CATALOGUE: Dict[str, Tuple[str, str]] = {
     "unused_things": ("none", "import os\nimport sys\ndef unused_function(x):\n    unused_local = x + 1\n    return x\nUNUSED_CONSTANT = 5\nclass Unused:\n    pass\nprint('x')"),
     "staticmethod_candidate": ("none", "class C:\n    def m(self, a):\n        return a + 1\n    def n(self):\n        return self.m(1)\nprint(C().n())"),
     "for_over_int": ("none", "try:\n    for x in 5:\n        print(x)\nexcept TypeError:\n    print('not iterable')"),
+    "resource_never_mentioned_again": ("none", "import tempfile\nres = tempfile.TemporaryFile()\nvalue = 1\nprint(value)"),
+    "resource_class_attribute": ("none", "import tempfile\nclass Keeper:\n    res = tempfile.TemporaryFile()\n    value = 1\nprint(Keeper.value)"),
+    "resource_used_then_not": ("none", "import tempfile\nres = tempfile.TemporaryFile()\nres.write(b'x')\nvalue = 1\nprint(value)"),
     "tail_then_dedent": ("none", "def tail(f):\n    if f:\n        print(1)\n        print(3)\n    else:\n        print(2)\n        print(3)\nprint(tail(1))"),
     "format_errors_const": ("none", "try:\n    if '{} {}'.format('a'):\n        print(1)\nexcept IndexError:\n    print('index')"),
     "dup_functions_semicolon": ("none", "def twin_a(v):\n    return v + 1\n\n\ndef twin_b(v):\n    return v + 1\n\n\ndef report(width, height):\n    area = width * height;\n    text = 'a;  b'\n    return area, text\n\n\nprint(twin_a(1), twin_b(1), report(2, 3))"),
